@@ -584,15 +584,26 @@ func init() {
 	reg("internal/bytealg.IndexByte", func(m *Machine, _ *frame, _ token.Pos, _ *ssa.Function, a []Value) Value {
 		return m.indexByte(a[0].(*Seq), a[1].(*smt.Term))
 	})
-	reg("internal/bytealg.CountString", func(m *Machine, _ *frame, _ token.Pos, _ *ssa.Function, a []Value) Value {
+	countBytes := func(m *Machine, _ *frame, _ token.Pos, _ *ssa.Function, a []Value) Value {
 		s := a[0].(*Seq)
-		g, ok := s.GoString()
 		b := a[1].(*smt.Term)
-		if !ok || !b.IsConst() {
-			panic(m.unsupported("bytealg.CountString on a symbolic string"))
+		if g, ok := s.GoString(); ok && b.IsConst() {
+			return m.bv64(strings.Count(g, string([]byte{byte(b.Val)})))
 		}
-		return m.bv64(strings.Count(g, string([]byte{byte(b.Val)})))
-	})
+		if s.Max < 0 || s.Max > 256 {
+			panic(m.unsupported("bytealg.Count on a byte sequence without a small length bound"))
+		}
+		c := m.C
+		n := c.BV(0, 64)
+		for i := 0; i < s.Max; i++ {
+			ix := c.BV(uint64(i), 64)
+			hit := c.And(c.Cmp(smt.OULT, ix, s.Len), c.Eq(s.At(ix), b))
+			n = c.Bin(smt.OAdd, n, c.Ite(hit, c.BV(1, 64), c.BV(0, 64)))
+		}
+		return n
+	}
+	reg("internal/bytealg.CountString", countBytes)
+	reg("internal/bytealg.Count", countBytes)
 
 	// ------------------------------------------------------------------ context
 	reg("context.WithValue", func(m *Machine, _ *frame, pos token.Pos, _ *ssa.Function, a []Value) Value {
